@@ -200,28 +200,36 @@ Definition cb_multiset_ok (g : cfg) (ths : list tkind) (obs : list rres) (newcbs
   | None => false
   end.
 
-(* a consumer mirroring the router from its callbacks ends with the registry's contents *)
-Definition cb_replay_ok (cbs : list change) (final : list (string * client)) : bool :=
-  forallb (fun nc => or_nil (replay cbs (fst nc)) =? snd nc) final.
+(* no change is reported twice *)
+Fixpoint nodup_changes (l : list change) : bool :=
+  match l with
+  | [] => true
+  | c :: r => negb (existsb (change_eqb c) r) && nodup_changes r
+  end.
 
-Definition cb_ok (g : cfg) (first : Z) (pre : list rop) (ths : list tkind) (obs : list rres) (cbs : list change)
-           (final : list (string * client)) : bool :=
+(* "change callbacks report exactly the transitions" for concurrent committers, as the property
+   states it: WHICH transitions are reported (each committed transition exactly once, nothing else),
+   not the order in which callbacks of different threads arrive.
+   - the callbacks of the sequential prefix (one committer: program order) are the prefix's log, in order;
+   - every mutating call reported exactly its own transition, once (cb_multiset_ok, from the results alone);
+   - nothing is reported twice;
+   - all calls having returned (nothing committed is still unreported), the callbacks are a
+     permutation of the transition log (commit order; taken from RouterCb.v's run of the same
+     schedule, the harness cannot see commits) -- C12_callbacks_are_transitions;
+   - the concurrent-first-Get clause (one client for everybody, one Auto change).
+   Each thread commits at most one transition, so per-committer order inside the concurrent part is
+   the order "prefix before thread" checked by the first item.  Nothing about cross-thread order. *)
+Definition cb_ok (g : cfg) (first : Z) (pre : list rop) (ths : list tkind) (sched : list nat) (obs : list rres)
+           (cbs : list change) (final : list (string * client)) : bool :=
   let '(p0, _) := prun g (mkP pempty [] first) pre in
+  let '(s0, _) := rrun g (init first) pre in
+  let G := cgrun g ths sched (cginit s0 ths) in
+  let newcbs := skipn (List.length (plog p0)) cbs in
   sched_ok g pre ths obs cbs final
   && list_eqb change_eqb (firstn (List.length (plog p0)) cbs) (plog p0)
-  && cb_multiset_ok g ths obs (skipn (List.length (plog p0)) cbs)
-  && cb_replay_ok cbs final.
-
-(* known finding, class 1: the model itself (RouterCb.v) delivers the callbacks of this schedule
-   in an order different from the order of the transitions they report *)
-Definition cb_reordered (c : c12case) : bool :=
-  match c with
-  | KSchedCb g first pre ths sched obs cbs final =>
-      let '(s0, _) := rrun g (init first) pre in
-      let G := cgrun g ths sched (cginit s0 ths) in
-      perm_eqb (ccbs G) (slog (cst G)) && negb (list_eqb change_eqb (ccbs G) (slog (cst G)))
-  | _ => false
-  end.
+  && cb_multiset_ok g ths obs newcbs
+  && nodup_changes newcbs
+  && perm_eqb cbs (slog (cst G)).
 
 Definition wres_sim (a b : wres) : bool :=
   let '(WR r1 a1 b1) := a in let '(WR r2 a2 b2) := b in rres_sim r1 r2 && (a1 =? a2) && (b1 =? b2).
@@ -269,7 +277,7 @@ Definition C12_ok (c : c12case) : bool :=
       | None => false
       end
   | KSched g first pre ths sched obs log final => sched_ok g pre ths obs log final
-  | KSchedCb g first pre ths sched obs cbs final => cb_ok g first pre ths obs cbs final
+  | KSchedCb g first pre ths sched obs cbs final => cb_ok g first pre ths sched obs cbs final
   | KRegW o ops obs log => regw_ok o ops obs log
   | KDefault name r obs => default_ok name true r obs
   | KDefaultStream name ok r obs => default_ok name ok r obs
@@ -282,4 +290,4 @@ Definition C12_ok (c : c12case) : bool :=
 Definition C12_guard (c : c12case) : bool := true.
 
 Definition judge (c : c12case) : Z :=
-  verdict (agrees c) (if C12_guard c then C12_ok c else true) (if cb_reordered c then Some 1 else None).
+  verdict (agrees c) (if C12_guard c then C12_ok c else true) None.
